@@ -180,7 +180,7 @@ package agent
 //@ pure func isGateCommand(c string) bool { return c == handshakeCommand || c == authCommand }
 //@ func (i *AgentIPC) handleRequest(client *IPCClient, reqHeader *requestHeader) (err error)
 //@   requires wf: i != nil && client != nil && client.dec != nil && reqHeader != nil
-//@   requires agent: wfTagsAgent(i)
+//@   requires agent: wfHandler(i, client)
 //@   oldlet n0 := logN("ipcsent")
 //@   oldlet c0 := callN()
 //@   oldlet shaken := client.version != 0
